@@ -304,16 +304,22 @@ func (a *Agent) ListKeys() (*serf.KeyResponse, error) {
 // SetTags is used to update the tags. The agent will make sure to
 // persist tags if necessary before gossiping to the cluster.
 func (a *Agent) SetTags(tags map[string]string) error {
-	// Update the tags file if we have one
+	// Set the tags in Serf, start gossiping out. Serf validates the tags
+	// (their encoding must fit the metadata limit), so this comes first.
+	err := a.serf.SetTags(tags)
+
+	// Update the tags file if we have one, with the tags that are now in
+	// effect: the new ones if Serf accepted them, the previous ones if it
+	// rejected the edit. The file must never hold tags the node does not use.
 	if a.agentConf.TagsFile != "" {
-		if err := a.writeTagsFile(tags); err != nil {
-			a.logger.Printf("[ERR] agent: %s", err)
-			return err
+		if werr := a.writeTagsFile(a.conf.Tags); werr != nil {
+			a.logger.Printf("[ERR] agent: %s", werr)
+			if err == nil {
+				err = werr
+			}
 		}
 	}
-
-	// Set the tags in Serf, start gossiping out
-	return a.serf.SetTags(tags)
+	return err
 }
 
 // loadTagsFile will load agent tags out of a file and set them in the
